@@ -58,6 +58,15 @@ class World:
         except LayoutMismatch as e:
             return 'layout', str(e)
 
+    def call_construct(self, ci, args, kwargs=None):
+        """Construct an object of the package through its own constructor."""
+        try:
+            return 'return', self.it.construct(ci, list(args), dict(kwargs or {}), None)
+        except RaiseSignal as r:
+            return 'raise', (r.exc_type, r.where, r.exc_args)
+        except LayoutMismatch as e:
+            return 'layout', str(e)
+
     def cls(self, mod, name):
         return self.repo.cls(mod, name)
 
